@@ -507,8 +507,26 @@ class Engine:
             a.trail.append(f"L{getattr(test, 'lineno', '?')}:T")
             b.pc.append(Not(t))
             b.trail.append(f"L{getattr(test, 'lineno', '?')}:F")
-            outs += [(a, True), (b, False)]
+            for (x, val) in ((a, True), (b, False)):
+                if not self.infeasible(x):
+                    outs.append((x, val))
         return outs
+
+    def infeasible(self, st):
+        """definite unsat of the path condition (cheap, sound pruning of dead branches)."""
+        if not getattr(self.c, "prune", True):
+            return False
+        sol = z3.Solver()
+        sol.set("timeout", 400)
+        for k, v in (("auto_config", False), ("smt.mbqi", False)):
+            sol.set(k, v)
+        for ax in self._prune_axioms():
+            sol.add(ax)
+        sol.add(*st.pc)
+        return sol.check() == z3.unsat
+
+    def _prune_axioms(self):
+        return ()
 
     def stmt(self, s, st):
         if isinstance(s, ast.Expr):
@@ -1486,6 +1504,17 @@ class Engine:
                 for x in items:
                     out = self.binop(node, ast.Add(), out, x, st)
                 return out
+        if name in ("frozenset", "set"):
+            items = self._concrete_items(args[0]) if args else []
+            if items is not None:
+                return Abstract("concrete_iter", items=list(items), kind=name)
+        if name == "reversed":
+            items = self._concrete_items(args[0])
+            if items is not None:
+                return Abstract("concrete_iter", items=list(reversed(items)), kind="reversed")
+        if name == "list" and args and isinstance(args[0], SymSeq):
+            v = args[0]
+            return SymSeq(v.arr, v.n, list(v.over), v.wrap, v.unwrap, v.tag)
         if name in ("list", "tuple"):
             if not args:
                 return PyList() if name == "list" else ()
@@ -1614,6 +1643,14 @@ class Engine:
                     return self.concat(parts) if parts else ""
             if all(isinstance(a, (str, int)) for a in args):
                 return getattr(recv, name)(*args)
+        if isinstance(recv, Abstract) and recv.tag == "concrete_iter" and name in ("issuperset", "issubset"):
+            other = self._concrete_items(args[0])
+            if other is not None:
+                sup, sub = (recv.items, other) if name == "issuperset" else (other, recv.items)
+                res = [self.compare(node, ast.In(), x, PyList(sup), st) for x in sub]
+                if all(isinstance(r, bool) for r in res):
+                    return all(res)
+                return And(*[BoolVal(r) if isinstance(r, bool) else r for r in res])
         if isinstance(recv, Obj):
             raise Unsupported(f"method {recv.cls}.{name} needs a contract")
         raise Unsupported(f"method {name} on {recv!r} (line {getattr(node, 'lineno', '?')})")
